@@ -24,6 +24,7 @@ PLAN = {
     "interrupt": None,   # {"stage": s, "chain": c, "k": i, "site": "trans"|"trace"}
     "delays": {},        # chain -> seconds slept at the start of each iteration (schedule perturbation)
     "event_dir": None,
+    "initfail": None,
     "stage": [0],        # current stage index as seen by the stager-provided adapters (parent side)
 }
 _SEQ = [0]
@@ -147,6 +148,11 @@ class ProbeAdapter(Adapter):
 
     def initialize(self, chain_state, transition):
         c = int(chain_state.x[0])
+        f = PLAN.get("initfail")
+        if f and f["stage"] == self.stage and f["chain"] == c:
+            from mici.errors import AdaptationError
+            log_event("AdInitFail", a=self.name, s=self.stage, c=c)
+            raise AdaptationError("probe: scripted initialisation failure")
         self._set(transition, enc_init(c))
         log_event("AdInit", a=self.name, s=self.stage, c=c)
         return {"n": 0, "c": c}
